@@ -104,6 +104,17 @@ def run_case(case, ctx):
         ctx.nontrivial(["large", case["s"], n])
         return
     a = atomsgen.gen_atoms(rng, n, tag="S", cell=case["cell"], max_terms=5, unused_types=bool(rng.integers(2)))
+    if n >= 2 and case["s"] % 3 == 0:
+        # a small periodic cell: an atom bonded to two images of its neighbour - the angle j-i-j', the torsion i-j-i'-j' and the
+        # bond between an atom and its own image list one atom index twice
+        i, j = (int(x) for x in np.random.default_rng(case["s"]).choice(n, 2, replace=False))
+        for arr, row in (("bonds", (i, i)), ("angles", (j, i, j)), ("dihedrals", (i, j, i, j)), ("impropers", (i, j, j, i))):
+            t = np.asarray(getattr(a, arr))
+            if len(t) and (arr != "bonds" or case["s"] % 2):
+                t = t.copy()
+                t[len(t) // 2] = row
+                setattr(a, arr, t)
+                st.count("terms_listing_one_atom_twice")
     m0 = AM.resolve(a)
     ids = m0.ids()
     any_removed = any_survived = False
@@ -204,6 +215,8 @@ def requirements(stats, tier):
         need.append("deletions of a dozen or more scattered atoms from a structure of thousands: %d" % stats.get("deletions_of_a_dozen_or_more_scattered_atoms"))
     if stats.get("later_deletions_from_an_object_that_still_had_terms") < (100 if tier == "quick" else 10000):
         need.append("second and later deletions on one object that still had terms: %d" % stats.get("later_deletions_from_an_object_that_still_had_terms"))
+    if stats.get("terms_listing_one_atom_twice") < (10 if tier == "quick" else 1000):
+        need.append("terms that list one atom twice (bonded to its own image): %d" % stats.get("terms_listing_one_atom_twice"))
     if stats.get("pops_checked") < 20:
         need.append("pop not observed")
     if stats.get("contract_eval.C10.delitem_post") < stats.get("deletions_checked"):
